@@ -140,6 +140,30 @@ def main():
                     hp = header()
                     ok_hdr = (f'inner.{w}', 'items/x') in hp
                     o['wire_seen'] = w if ok_path and ok_hdr else f'?path={h and h["path"]} header={hp}'
+                elif position == 'http_path_head':
+                    In = getattr(mod, f'In{i}')
+                    fs = fields_of(M)
+                    o['surface_seen'] = attr if attr in fs else (w if w in fs else '')
+                    getattr(rclient, meth)(request=M(**{attr: In(other='items/x'), 'plain': 'p'}))
+                    h = state['http']
+                    ok_path = h and h['path'] == f'/v1/m{i}/items/x'
+                    getattr(client, meth)(request=M(**{attr: In(other='items/x')}))
+                    hp = header()
+                    ok_hdr = (f'{w}.other', 'items/x') in hp
+                    o['wire_seen'] = w if ok_path and ok_hdr else f'?path={h and h["path"]} header={hp}'
+                elif position == 'http_body_additional':
+                    In = getattr(mod, f'In{i}')
+                    fs = fields_of(M)
+                    o['surface_seen'] = attr if attr in fs else (w if w in fs else '')
+                    seen = []
+                    for which in ('first', 'second'):
+                        state['http'] = None
+                        getattr(rclient, meth)(request=M(**{attr: In(other='o'), 'plain': which + '/x'}))
+                        h = state['http']
+                        body = json.loads(h['body'].decode() or '{}') if h else None
+                        seen.append((h and h['path'], body))
+                    want = [(f'/v1/m{i}/first/x', {'other': 'o'}), (f'/v1/m{i}/second/x', {'other': 'o'})]
+                    o['wire_seen'] = w if seen == want else f'?requests={seen}'
                 elif position == 'http_body':
                     In = getattr(mod, f'In{i}')
                     fs = fields_of(M)
@@ -237,6 +261,10 @@ def main():
                         In = getattr(amod, f'In{i}')
                         await getattr(aclient, meth)(request=M(inner=In(**{attr: 'items/x'})))
                         seen = (f'inner.{w}', 'items/x') in header()
+                    elif position == 'http_path_head':
+                        In = getattr(amod, f'In{i}')
+                        await getattr(aclient, meth)(request=M(**{attr: In(other='items/x')}))
+                        seen = (f'{w}.other', 'items/x') in header()
                     elif position == 'routing_field':
                         await getattr(aclient, meth)(request=M(**{attr: 'v'}))
                         seen = (w, 'v') in header()
